@@ -560,7 +560,7 @@ func gen(r *core.Rand, tier string) core.Case {
 		share = 30
 	}
 	if towerHooks && r.Chance(share) {
-		kind := heightKinds[1+r.Pick(5, 2, 3)] // tall, flat, alt
+		kind := heightKinds[1+r.Pick(5, 2, 3, 2)] // tall, flat, alt, raw
 		c.Lines[0] = fmt.Sprintf("@ C03 rb heights=%s:%d", kind, r.Intn(1000000))
 		c.Tag += "-heights"
 	}
@@ -568,6 +568,9 @@ func gen(r *core.Rand, tier string) core.Case {
 }
 
 func genBody(r *core.Rand, tier string) core.Case {
+	if share := map[bool]int{false: 3, true: 6}[tier == "thorough"]; r.Chance(share) {
+		return genMulti(r, tier == "thorough")
+	}
 	g := &genState{r: r, s: newRef(), hist: map[uint32][]bulkArgs{}, lines: []string{"@ C03 rb"}}
 	if share := map[bool]int{false: 9, true: 13}[tier == "thorough"]; r.Chance(share) {
 		g.handlesScript(tier == "thorough")
@@ -589,7 +592,7 @@ func genBody(r *core.Rand, tier string) core.Case {
 		}
 		return core.Case{Lines: g.lines, Tag: tag}
 	}
-	heavy := r.Chance(24)
+	heavy := r.Chance(18)
 	if tier == "thorough" {
 		heavy = r.Chance(30)
 	}
